@@ -28,7 +28,7 @@ def regen_gen():
 
 def gen_cases(seed, tier):
     rnd = random.Random(seed * 15485863 + 2)
-    nr, nc = (200, 70) if tier == 'quick' else (6000, 2000)
+    nr, nc = (320, 100) if tier == 'quick' else (6000, 2000)
     cases = []
     for _ in range(nr):
         f = gen_rules_file(rnd, nrules=rnd.choice([1, 2, 2, 3, 3, 4, 4, 5, 6, 8]))
@@ -99,6 +99,7 @@ TAG_ONLY = [
 
 def variants(ci, c, jr, rnd, tier):
     reqs = []
+    rnd = case_rnd(c)
     f = c['file']
     if c['kind'] == 'rules':
         n = len(f['rules'])
@@ -231,15 +232,16 @@ def main(tier):
     for (name, sig), fl in sorted(groups.items(), key=lambda kv: str(kv[0])):
         ci, ti, _, det, _ = min(fl, key=lambda x: len(json.dumps(cases[x[0]]['file'])))
         c = cases[ci]
-        small = c['file']
+        small, case_out = c['file'], c
         still = still_fails_factory(c['kind'], c['txns'][ti], name, sig, run.seed)
         if still(small):
             small = (shrink_rules if c['kind'] == 'rules' else shrink_csv)(small, still)
-            _, f2, _ = evaluate([{'kind': c['kind'], 'file': small, 'txns': [c['txns'][ti]]}], random.Random(run.seed), 'thorough')
+            case_out = {'kind': c['kind'], 'file': small, 'txns': [c['txns'][ti]]}
+            _, f2, _ = evaluate([case_out], random.Random(run.seed), 'thorough')
             f2 = [x for x in f2 if x[2] == name and x[4] == sig]
             if f2:
                 det = f2[0][3]
-        obj = {'kind': 'counterexample', 'oracle': name, 'case': {'kind': c['kind'], 'file': small, 'txns': [c['txns'][ti]]},
+        obj = {'kind': 'counterexample', 'oracle': name, 'case': case_out,
                'text': render_rules(small) if c['kind'] == 'rules' else render_csv(small), 'detail': det, 'n_failing': len(fl),
                'shrunk_from': len(c['file'].get('rules', c['file'].get('rows', []))), 'seed': run.seed,
                'obligation': 'c02_* on the implementation', 'broken': broken}
@@ -312,8 +314,8 @@ def replay(path):
         main('quick')
         return 1
     c = obj['case']
-    _, fails, _ = evaluate([c], random.Random(obj.get('seed', 0)), 'thorough')
-    hit = [x for x in fails if x[2] == obj.get('oracle')] or fails
+    _, fails, _ = evaluate([c], random.Random(obj.get('seed', 0)), 'thorough' if len(c['txns']) == 1 else 'quick')
+    hit = [x for x in fails if x[2] == obj.get('oracle') and x[4] == obj.get('signature')]
     print(json.dumps({'text': render_rules(c['file']) if c['kind'] == 'rules' else render_csv(c['file']), 'txn': c['txns'][0],
                       'failing_oracles': [[x[2], x[3], x[4]] for x in hit]}, indent=1, default=str))
     if hit:
